@@ -424,7 +424,8 @@ def c06(ctx):
 
 @check("C07")
 def c07(ctx):
-    ctx.assumptions += ["restore runs on a one-node in-process cluster (real NodeHost, real Raft proposals, real FSM on an in-memory FS); the gRPC chunk transport (Snapshot.Stream / Maintenance.Restore) is covered with C18, not here",
+    ctx.assumptions += ["restore runs on a one-node in-process cluster (real NodeHost, real Raft proposals, real FSM on an in-memory FS)",
+                        "backup files: real backup.Backup client, real Cluster and Maintenance services on a loopback gRPC listener, files in a temporary directory; damage = one byte flipped / truncated / byte appended / file of another table / checksum in the manifest changed",
                         "record sizes are model units (1..3) times 200/1000/5000 bytes with MaxInMemLogSize = 2 * threshold units, so the threshold falls on every record position",
                         "settings in which one record exceeds the whole MaxInMemLogSize are excluded (threshold of 1 unit): dragonboat refuses such proposals for ever, for ordinary writes too"]
     q = ctx.quick
@@ -437,7 +438,11 @@ def c07(ctx):
     # point in time under a back-to-back writer at the state machine: 60 command snapshots per behaviour
     if not ctx.gv("snapshots-under-writes", "Trace_Table", ["table", "--mode", "snapconc", "--seed", str(seed()), "--n", str(8 if q else 80), "--ops", "300"], racy=True):
         return
-    ctx.gv("tlc-streams", "Trace_Restore", ["restore", "--seed", str(seed()), "--pit", str(6 if q else 60)], inputs=adv, racy=True)
+    if not ctx.gv("tlc-streams", "Trace_Restore", ["restore", "--seed", str(seed()), "--pit", str(6 if q else 60)], inputs=adv, racy=True):
+        return
+    # backup files: the real backup.Backup client against the real Cluster / Maintenance services: restore into changed
+    # tables, into another cluster, after a file or the manifest was damaged, and of a backup taken under writes
+    ctx.gv("backup-files", "Trace_Restore", ["backup", "--seed", str(seed()), "--n", str(8 if q else 80)], racy=True)
 
 
 DISK_ASSUME = ["fault model exactly as in C04: file data durable up to the file's last sync, directory entries up to the directory's last sync, base data directory durable beforehand (pebble strict MemFS + operation counter)",
